@@ -296,3 +296,20 @@ def normalise_ownership(events):
             yield {"ev": "Take", "t": t, "samples": [{"w": s["w"], "seq": s["seq"], "i": s["i"]} for s in e["samples"] if "seq" in s]}
         elif ev == "SimError":
             yield {"ev": "SimError", "t": 0, "err": e["err"]}
+
+
+def normalise_hist(events):
+    """Normalised events for Trace_Hist.tla (C04 with several writers): writes, wait_for_historical_data results, takes."""
+    for e in events:
+        ev = e["ev"]
+        t = us(e.get("t", 0))
+        if ev == "Reset":
+            yield {"ev": "Reset", "t": 0}
+        elif ev == "WriteRet":
+            yield {"ev": "Write", "t": t, "w": e["w"], "seq": e["seq"], "ok": 1 if e["res"] == "Ok" and e["kind"] == "write" else 0}
+        elif ev == "WaitHistRet":
+            yield {"ev": "WaitHistRet", "t": t, "res": e["res"]}
+        elif ev in ("Take", "Read"):
+            yield {"ev": "Take", "t": t, "samples": [{"w": s["w"], "seq": s["seq"]} for s in e["samples"] if "seq" in s]}
+        elif ev == "SimError":
+            yield {"ev": "SimError", "t": 0, "err": e["err"]}
